@@ -366,6 +366,7 @@ def replay(pid, path):
         return 2
     kf_open = open_findings(load_kf())
     wd = runner.workdir(f"replay-{pid}")
+    runner.build_harness()          # a replay, too, runs the code of /repo's current working tree
     st = run_trace_stage(pid, [sc], wd, kf_open)
     for rep in st["viol"][:10]:
         print("MISMATCH", json.dumps(rep)[:1500])
